@@ -358,7 +358,7 @@ def check(run, replay=None, cid="C18"):
     run.assumptions += ["Minim.v, MinimCG.v, MinimLBFGS.v are hand models (tie = comparison of call-back sequences and results on every run)",
                         "the feasibility theorems for conjugate gradient and L-BFGS assume that a line search entered without bounds (no component of the direction points to a finite bound) cannot leave the box",
                         "LAPACK's solve, the norm, the finiteness test and the user's functions are Section variables of the model; in the comparison they are an OCaml elimination, sqrt of a sum of squares, Float.is_finite and the harness's problems re-implemented in OCaml",
-                        "the comparison tolerates 1e-7 relative differences in states (different solver / summation rounding) and retries under 40 rounding perturbations (every multiplication and division of the model, solve, the direction norm, by at most one ulp) before reporting a difference; decisions with a relative margin below 1e-9 (Levenberg) / 1e-6 (CG, L-BFGS) are near-ties",
+                        "comparison rules (DESIGN.md section 4, C18): distinct states only (repeated evaluations of one state merged), tolerance 1e-7 growing to 1e-3 along a run, up to 40 rounding perturbations of the model (<= 1 ulp on operations and cost, <= 512 ulp of the largest component on the solver result, cancellation error on gradient components) to explain a divergence, direct recognition of ties (solver component zero up to rounding; same end point and cost after different numbers of trials; one run a prefix of the other ending FAILED_TO_CONVERGE), near-tie margins 1e-9 (Levenberg) / 1e-6 (CG, L-BFGS)",
                         "termination is observed (10 s alarm per call), not proved for floating point"]
     if cid == "C19":
         run.assumptions.append("'within an iteration budget proportional to the size' is explored with the budget 20n+50 on the generated quadratics (condition number below ~10), not proved")
